@@ -1,17 +1,37 @@
 """
-Write footprint of the serve path (C13): every store the functions reachable from
-SimpleJSONRPCDispatcher._marshaled_dispatch can make, with its receiver classified as
+Write footprint of the serve path (C13): every store the functions reachable from the entry points of
+"serving a request" can make —
+
+    SimpleJSONRPCDispatcher._marshaled_dispatch      (direct use of the dispatcher)
+    SimpleJSONRPCRequestHandler.do_POST              (HTTP)
+    CGIJSONRPCRequestHandler.handle_jsonrpc          (CGI)
+
+— with its receiver classified as
 
   fresh   - a local name bound (in that function) to a constructor call, a literal/comprehension, a
             `.copy()` result or the return of a package function that builds a new object
-  param   - a parameter of the function (the request dictionary, the object being dumped/loaded …):
-            request-local data handed down the call chain
-  selfnew - `self` inside a method of a per-request class (Fault, Payload)
-  shared  - anything else: rooted at `self` of the dispatcher/handler/server, a module global, a
-            default argument, a name bound to an attribute of a shared object
+  param   - a parameter of the function that NO call site on the serve path feeds from shared state
+            (the request dictionary, the object being dumped/loaded …): request-local data handed down
+  selfnew - a direct attribute of `self` inside a method of a per-request class (Fault, Payload, the HTTP
+            request handler: one instance per request)
+  shared  - anything else: rooted at `self` of the dispatcher/server, a module global, a name bound to an
+            attribute of a shared object, a parameter that some call site on the serve path binds to
+            `self.<attr>`, to a module global (`config.DEFAULT`), to a default argument that is one, or to
+            (an attribute of) a parameter/local that is itself shared (fixpoint over the call graph:
+            `jsonclass.load(data, config.classes)` makes `classes` shared because `config` is
+            `self.json_config` two calls up)
 
-and whether the only store into a configuration object (`<x>.version = …`) is applied to a name bound
-to the result of `.copy()`.
+Stores are: assignment / augmented / annotated assignment / `del` / `for`-target / `with … as` to an attribute
+or a subscript (tuple targets flattened), calls of mutator methods, `setattr`/`delattr`/`object.__setattr__`,
+`vars(x)[…] = …`, any assignment to a name declared `global`/`nonlocal`, and caching decorators
+(`lru_cache`, `cache`, `cached_property`, anything named *cache*/*memo*) on a function of the serve path, which
+keep state across requests.
+
+Also extracted: whether every store into a configuration attribute on the serve path is applied to a name bound to
+the result of `.copy()`; how `Config.copy` treats `classes` and `serialize_handlers` (a semantic test: the copy's
+dictionary is a new object filled from the original's, in any of the usual spellings, and is never the original's
+object); and, for every `Fault(...)` / `jsonrpclib.dump(...)` call on the serve path, which configuration it is
+handed — the per-request one or the server's.
 """
 import ast
 
@@ -20,8 +40,10 @@ from __main__ import Fact, lean_bool, lean_list, lean_str
 PROPERTIES = ["C13"]
 
 MUTATORS = {"setdefault", "append", "update", "pop", "popitem", "add", "remove", "clear", "extend", "insert",
-            "discard", "difference_update", "sort", "reverse", "__setitem__", "__delitem__"}
-PER_REQUEST_CLASSES = {"Fault", "Payload"}
+            "discard", "difference_update", "intersection_update", "symmetric_difference_update", "sort", "reverse",
+            "appendleft", "extendleft", "__setitem__", "__delitem__", "__setattr__", "__delattr__", "__iadd__", "__ior__"}
+SETATTR_FUNCS = {"setattr", "delattr"}
+PER_REQUEST_CLASSES = {"Fault", "Payload", "SimpleJSONRPCRequestHandler"}
 # modules and (for jsonrpc) the classes whose methods can be on the serve path
 SCOPE = {
     "SimpleJSONRPCServer": None,
@@ -30,10 +52,16 @@ SCOPE = {
     "config": {"Config"},
     "utils": None,
 }
-# classes of SimpleJSONRPCServer whose methods are not part of dispatching a request body
-SKIP_CLASSES = {"SimpleJSONRPCServer", "PooledJSONRPCServer", "CGIJSONRPCRequestHandler", "SimpleJSONRPCRequestHandler"}
+# classes of SimpleJSONRPCServer whose methods are set-up/tear-down of a server, not the serving of a request body
+SKIP_CLASSES = {"SimpleJSONRPCServer", "PooledJSONRPCServer"}
 ROOT = ("SimpleJSONRPCServer", "SimpleJSONRPCDispatcher", "_marshaled_dispatch")
+EXTRA_ROOTS = [("SimpleJSONRPCServer", "SimpleJSONRPCRequestHandler", "do_POST"),
+               ("SimpleJSONRPCServer", "CGIJSONRPCRequestHandler", "handle_jsonrpc")]
 IGNORED_FUNCS = {"__init__"}  # constructors write to the object under construction (fresh by definition)
+PACKAGE_ALIASES = {"jsonrpclib": "jsonrpc"}   # `jsonrpclib.loads` is jsonrpc.loads
+
+CONFIG_ATTRS = ("version", "use_jsonclass", "content_type", "user_agent", "serialize_method", "ignore_attribute",
+                "classes", "serialize_handlers")
 
 
 def _functions(src):
@@ -44,7 +72,7 @@ def _functions(src):
         if tree is None:
             continue
         for n in tree.body:
-            if isinstance(n, ast.FunctionDef):
+            if isinstance(n, (ast.FunctionDef, ast.AsyncFunctionDef)):
                 if allowed is None or None in allowed:
                     out[(mod, None, n.name)] = n
             elif isinstance(n, ast.ClassDef):
@@ -53,80 +81,369 @@ def _functions(src):
                 if allowed is not None and n.name not in allowed:
                     continue
                 for m in n.body:
-                    if isinstance(m, ast.FunctionDef):
+                    if isinstance(m, (ast.FunctionDef, ast.AsyncFunctionDef)):
                         out[(mod, n.name, m.name)] = m
     return out
 
 
-def _called_names(fn):
-    names = set()
-    for n in ast.walk(fn):
-        if isinstance(n, ast.Call):
-            f = n.func
-            if isinstance(f, ast.Name):
-                names.add(f.id)
-            elif isinstance(f, ast.Attribute):
-                names.add(f.attr)
-    return names
+def _calls(fn):
+    return [n for n in ast.walk(fn) if isinstance(n, ast.Call)]
 
 
-def _reachable(funcs):
+def _call_name(call):
+    f = call.func
+    if isinstance(f, ast.Name):
+        return f.id
+    if isinstance(f, ast.Attribute):
+        return f.attr
+    return None
+
+
+def _by_name(funcs):
     by_name = {}
     for key in funcs:
         by_name.setdefault(key[2], []).append(key)
         if key[2] == "__init__" and key[1]:
             by_name.setdefault(key[1], []).append(key)   # Fault(...) -> Fault.__init__
-    seen, todo = set(), [ROOT]
+    return by_name
+
+
+def _candidates(call, by_name):
+    """Functions a call may reach, narrowed by the spelling of the callee when that is unambiguous."""
+    name = _call_name(call)
+    cands = by_name.get(name, []) if name else []
+    if not cands:
+        return []
+    f = call.func
+    narrowed = None
+    if isinstance(f, ast.Attribute) and isinstance(f.value, ast.Name):
+        v = PACKAGE_ALIASES.get(f.value.id, f.value.id)
+        if v in SCOPE:
+            narrowed = [k for k in cands if k[0] == v and (k[1] is None or k[2] == "__init__")]
+        elif f.value.id in ("self", "cls"):
+            narrowed = [k for k in cands if k[1] is not None and k[2] != "__init__"]
+    elif isinstance(f, ast.Name):
+        narrowed = [k for k in cands if k[1] is None or k[2] == "__init__"]
+    return narrowed or cands
+
+
+def _reachable(funcs, roots):
+    by_name = _by_name(funcs)
+    seen, todo = set(), list(roots)
     while todo:
         k = todo.pop()
         if k in seen or k not in funcs:
             continue
         seen.add(k)
-        for name in _called_names(funcs[k]):
-            for k2 in by_name.get(name, []):
+        for call in _calls(funcs[k]):
+            name = _call_name(call)
+            for k2 in by_name.get(name, []) if name else []:
                 if k2 not in seen:
                     todo.append(k2)
     return seen
 
 
 def _root_name(expr):
-    while isinstance(expr, (ast.Attribute, ast.Subscript, ast.Call)):
-        expr = expr.value if not isinstance(expr, ast.Call) else expr.func
+    while isinstance(expr, (ast.Attribute, ast.Subscript, ast.Call, ast.Starred)):
+        if isinstance(expr, ast.Call):
+            # vars(x) / x.__dict__: the object itself
+            if isinstance(expr.func, ast.Name) and expr.func.id == "vars" and expr.args:
+                expr = expr.args[0]
+            else:
+                expr = expr.func
+        else:
+            expr = expr.value
     return expr.id if isinstance(expr, ast.Name) else None
 
 
 def _is_fresh_value(v):
-    if isinstance(v, (ast.Dict, ast.List, ast.Set, ast.Tuple, ast.ListComp, ast.DictComp, ast.SetComp, ast.Constant, ast.JoinedStr)):
+    if isinstance(v, (ast.Dict, ast.List, ast.Set, ast.Tuple, ast.ListComp, ast.DictComp, ast.SetComp, ast.Constant,
+                      ast.JoinedStr, ast.BinOp, ast.Compare, ast.BoolOp, ast.UnaryOp)):
+        # (a BoolOp `x or {}` may hand back x: only literals on both sides are fresh)
+        if isinstance(v, ast.BoolOp):
+            return all(_is_fresh_value(x) for x in v.values)
         return True
     if isinstance(v, ast.Call):
         # the result of a call bound to a local name is a new object or request data handed back by a
         # callee (whose own stores are scanned separately); `getattr(obj, name)` is an attribute read
         f = v.func
-        if isinstance(f, ast.Name) and f.id == "getattr":
+        if isinstance(f, ast.Name) and f.id in ("getattr", "vars", "globals", "locals"):
             return False
         return True
     return False
 
 
-def _classify(fn, cls, recv, params, fresh):
+def _own_nodes(fn):
+    """Nodes of fn, not descending into nested function/class definitions (they are not on the path by name)."""
+    out = []
+    todo = list(ast.iter_child_nodes(fn))
+    while todo:
+        n = todo.pop()
+        out.append(n)
+        if isinstance(n, (ast.FunctionDef, ast.AsyncFunctionDef, ast.ClassDef, ast.Lambda)):
+            # the body of a nested def runs when called; keep it (conservative): a closure storing into shared state
+            # is a store of the enclosing function
+            pass
+        todo.extend(ast.iter_child_nodes(n))
+    return out
+
+
+def _params(fn):
+    a = fn.args
+    ps = [x.arg for x in a.posonlyargs + a.args + a.kwonlyargs]
+    if a.vararg:
+        ps.append(a.vararg.arg)
+    if a.kwarg:
+        ps.append(a.kwarg.arg)
+    return ps
+
+
+def _is_static(fn):
+    return any((isinstance(d, ast.Name) and d.id == "staticmethod") for d in fn.decorator_list)
+
+
+def _bound_names(fn):
+    """Every name the function binds: parameters, assignment/loop/with/except/import/comprehension/walrus targets."""
+    names = set(_params(fn))
+    for n in ast.walk(fn):
+        if isinstance(n, ast.Name) and isinstance(n.ctx, (ast.Store, ast.Del)):
+            names.add(n.id)
+        elif isinstance(n, ast.ExceptHandler) and n.name:
+            names.add(n.name)
+        elif isinstance(n, (ast.Import, ast.ImportFrom)):
+            for al in n.names:
+                names.add((al.asname or al.name).split(".")[0])
+    declared = set()
+    for n in ast.walk(fn):
+        if isinstance(n, (ast.Global, ast.Nonlocal)):
+            declared.update(n.names)
+    return names - declared, declared
+
+
+def _local_bindings(fn):
+    """{local name: [value expressions it is bound to by plain assignment]}"""
+    out = {}
+    for n in ast.walk(fn):
+        if isinstance(n, ast.Assign):
+            for t in n.targets:
+                if isinstance(t, ast.Name):
+                    out.setdefault(t.id, []).append(n.value)
+        elif isinstance(n, ast.AnnAssign) and isinstance(n.target, ast.Name) and n.value is not None:
+            out.setdefault(n.target.id, []).append(n.value)
+        elif isinstance(n, ast.NamedExpr) and isinstance(n.target, ast.Name):
+            out.setdefault(n.target.id, []).append(n.value)
+    return out
+
+
+class _Ctx(object):
+    """Per-function facts needed to decide whether an expression denotes shared state."""
+
+    def __init__(self, key, fn):
+        self.key = key
+        self.fn = fn
+        self.cls = key[1]
+        self.params = [p for p in _params(fn)]
+        self.locals, self.declared = _bound_names(fn)
+        self.bindings = _local_bindings(fn)
+        self.shared_params = set()
+
+
+def _expr_shared(ctx, e, depth=0):
+    """Does the expression (an argument, or the value a local is bound to) denote (part of) shared state?"""
+    if depth > 6:
+        return True
+    if isinstance(e, ast.Constant) or e is None:
+        return False
+    if isinstance(e, ast.Call):
+        f = e.func
+        if isinstance(f, ast.Name) and f.id == "getattr" and e.args:
+            return _expr_shared(ctx, e.args[0], depth + 1) or (len(e.args) > 2 and _expr_shared(ctx, e.args[2], depth + 1))
+        return False          # a call result: new object / request data (callee stores are scanned on their own)
+    if isinstance(e, ast.BoolOp):
+        return any(_expr_shared(ctx, x, depth + 1) for x in e.values)
+    if isinstance(e, ast.IfExp):
+        return _expr_shared(ctx, e.body, depth + 1) or _expr_shared(ctx, e.orelse, depth + 1)
+    if isinstance(e, ast.Starred):
+        return _expr_shared(ctx, e.value, depth + 1)
+    if isinstance(e, (ast.Dict, ast.List, ast.Set, ast.Tuple, ast.ListComp, ast.DictComp, ast.SetComp, ast.GeneratorExp,
+                      ast.JoinedStr, ast.BinOp, ast.Compare, ast.UnaryOp, ast.Lambda)):
+        return False
+    root = _root_name(e)
+    if root is None:
+        return True
+    direct = isinstance(e, ast.Name)
+    if root in ("self", "cls"):
+        if ctx.cls in PER_REQUEST_CLASSES:
+            # the per-request object itself is not shared; what hangs off it may be (self.server, self.config)
+            return not direct
+        return True
+    if root in ctx.declared:
+        return True
+    if root in ctx.params:
+        return root in ctx.shared_params
+    if root in ctx.locals:
+        return any(_expr_shared(ctx, v, depth + 1) for v in ctx.bindings.get(root, []))
+    return True               # a module global / builtin namespace object
+
+
+def _shared_params(funcs, reach):
+    """Fixpoint: parameters that some call site on the serve path binds to shared state."""
+    ctxs = {k: _Ctx(k, funcs[k]) for k in reach}
+    by_name = _by_name({k: funcs[k] for k in reach})
+    # defaults that are not literals are module-level objects shared by every call that omits the argument
+    for k, c in ctxs.items():
+        a = c.fn.args
+        pos = a.posonlyargs + a.args
+        for arg, d in zip(pos[len(pos) - len(a.defaults):], a.defaults):
+            if not isinstance(d, ast.Constant) and not _is_fresh_value(d):
+                c.shared_params.add(arg.arg)
+        for arg, d in zip(a.kwonlyargs, a.kw_defaults):
+            if d is not None and not isinstance(d, ast.Constant) and not _is_fresh_value(d):
+                c.shared_params.add(arg.arg)
+    changed = True
+    rounds = 0
+    while changed and rounds < 50:
+        changed = False
+        rounds += 1
+        for k, c in ctxs.items():
+            for call in _calls(c.fn):
+                for k2 in _candidates(call, by_name):
+                    c2 = ctxs.get(k2)
+                    if c2 is None:
+                        continue
+                    a = c2.fn.args
+                    pos = [x.arg for x in a.posonlyargs + a.args]
+                    is_method = k2[1] is not None and not _is_static(c2.fn)
+                    if is_method and pos:
+                        pos = pos[1:]      # bound call: `self` is supplied by the receiver
+                    for i, arg in enumerate(call.args):
+                        if isinstance(arg, ast.Starred):
+                            if _expr_shared(c, arg):
+                                for p in pos[i:]:
+                                    if p not in c2.shared_params:
+                                        c2.shared_params.add(p)
+                                        changed = True
+                            break
+                        target = pos[i] if i < len(pos) else (a.vararg.arg if a.vararg else None)
+                        if target and target not in c2.shared_params and _expr_shared(c, arg):
+                            c2.shared_params.add(target)
+                            changed = True
+                    for kw in call.keywords:
+                        target = kw.arg if kw.arg in _params(c2.fn) else (a.kwarg.arg if a.kwarg else None)
+                        if kw.arg is None:
+                            target = None
+                            if _expr_shared(c, kw.value):
+                                for p in _params(c2.fn):
+                                    if p not in ("self", "cls") and p not in c2.shared_params:
+                                        c2.shared_params.add(p)
+                                        changed = True
+                        if target and target not in c2.shared_params and _expr_shared(c, kw.value):
+                            c2.shared_params.add(target)
+                            changed = True
+    return ctxs
+
+
+def _flatten_targets(t):
+    if isinstance(t, (ast.Tuple, ast.List)):
+        for x in t.elts:
+            for y in _flatten_targets(x):
+                yield y
+    elif isinstance(t, ast.Starred):
+        for y in _flatten_targets(t.value):
+            yield y
+    else:
+        yield t
+
+
+def _blocks(fn):
+    """Every statement list of the function."""
+    for n in ast.walk(fn):
+        for field in ("body", "orelse", "finalbody"):
+            b = getattr(n, field, None)
+            if isinstance(b, list) and b and isinstance(b[0], ast.stmt):
+                yield b
+        if isinstance(n, ast.Try):
+            for h in n.handlers:
+                yield h.body
+
+
+def _dominating_binding(fn, node, name):
+    """The value of the closest plain assignment `name = <value>` that precedes the statement holding `node` in the
+    SAME statement list with nothing but straight-line statements in between, else None."""
+    for block in _blocks(fn):
+        for i, st in enumerate(block):
+            if any(x is node for x in ast.walk(st)):
+                if st is not node and not isinstance(st, (ast.Expr, ast.Assign, ast.AugAssign, ast.AnnAssign, ast.Delete)):
+                    break          # the store sits deeper (inside an if/for/try of this block): look in that block
+                for prev in reversed(block[:i]):
+                    if isinstance(prev, ast.Assign) and any(isinstance(t, ast.Name) and t.id == name for t in prev.targets):
+                        return prev.value
+                    if not isinstance(prev, (ast.Expr, ast.Assign, ast.AugAssign, ast.AnnAssign)):
+                        return None
+                    if any(isinstance(x, ast.Name) and x.id == name and isinstance(x.ctx, ast.Store) for x in ast.walk(prev)):
+                        return None
+                return None
+    return None
+
+
+def _is_copy_call(v):
+    return isinstance(v, ast.Call) and isinstance(v.func, ast.Attribute) and v.func.attr == "copy" and not v.args
+
+
+def _classify(ctx, recv, fresh, node=None):
     root = _root_name(recv)
     if root is None:
         return "shared"
+    if node is not None and root not in ("self", "cls") and root not in ctx.declared:
+        dom = _dominating_binding(ctx.fn, node, root)
+        if dom is not None and _is_fresh_value(dom):
+            # `config = self.json_config.copy(); config.version = 1.0`: the store hits the object just made,
+            # whatever else the name is bound to on other paths
+            return "fresh"
     direct = isinstance(recv, ast.Name)
-    if root == "self":
-        return "selfnew" if cls in PER_REQUEST_CLASSES else "shared"
-    if root in fresh and direct:
-        return "fresh"
+    if root in ("self", "cls"):
+        if ctx.cls in PER_REQUEST_CLASSES:
+            # `self.x = v` writes the per-request object; `self.server.x = v`, `self.config.x = v` reach beyond it
+            # (Fault and Payload hold nothing but request data and a configuration they only read: see `shared_attr`)
+            if direct:
+                return "selfnew"
+            return "shared"
+        return "shared"
+    if root in ctx.declared:
+        return "shared"
     if root in fresh:
+        # bound to a call result / literal somewhere in the function — unless it is ALSO bound to shared state
+        if any(_expr_shared(ctx, v) for v in ctx.bindings.get(root, []) if not _is_fresh_value(v)):
+            return "shared"
         return "fresh"
-    if root in params:
-        return "param"
+    if root in ctx.params:
+        return "shared" if root in ctx.shared_params else "param"
+    if root in ctx.locals and not ctx.bindings.get(root):
+        return "fresh"        # loop / with / except / comprehension variable: an element of what is iterated
+    if root in ctx.locals:
+        return "shared" if any(_expr_shared(ctx, v) for v in ctx.bindings[root]) else "fresh"
     return "shared"
 
 
-def _writes(key, fn):
-    mod, cls, name = key
-    params = {a.arg for a in fn.args.args + fn.args.kwonlyargs} - {"self"}
+def _is_cache_decorator(d):
+    name = None
+    if isinstance(d, ast.Call):
+        d = d.func
+    if isinstance(d, ast.Name):
+        name = d.id
+    elif isinstance(d, ast.Attribute):
+        name = d.attr
+    if name is None:
+        return None
+    low = name.lower()
+    if "cache" in low or "memo" in low:
+        return name
+    return None
+
+
+def _writes(ctx):
+    mod, cls, name = ctx.key
+    fn = ctx.fn
     fresh = set()
     copies = set()
     out = []
@@ -136,26 +453,241 @@ def _writes(key, fn):
                 fresh.add(n.targets[0].id)
             if isinstance(n.value, ast.Call) and isinstance(n.value.func, ast.Attribute) and n.value.func.attr == "copy":
                 copies.add(n.targets[0].id)
+    # a name bound to `.copy()` AND to something else (the cached copy of C13-a) is not "the result of copy()"
+    for nm in list(copies):
+        vals = ctx.bindings.get(nm, [])
+        if not vals:
+            copies.discard(nm)
+    special = []
+    for d in fn.decorator_list:
+        c = _is_cache_decorator(d)
+        if c:
+            special.append((fn.lineno, "decorator:" + c, "<function state>", c))
     for n in ast.walk(fn):
         targets = []
         if isinstance(n, ast.Assign):
-            targets = [(t, "store") for t in n.targets]
+            targets = [(t, "store") for tt in n.targets for t in _flatten_targets(tt)]
         elif isinstance(n, ast.AugAssign):
             targets = [(n.target, "augstore")]
+        elif isinstance(n, ast.AnnAssign) and n.value is not None:
+            targets = [(n.target, "store")]
         elif isinstance(n, ast.Delete):
-            targets = [(t, "del") for t in n.targets]
+            targets = [(t, "del") for tt in n.targets for t in _flatten_targets(tt)]
+        elif isinstance(n, (ast.For, ast.AsyncFor)):
+            targets = [(t, "store") for t in _flatten_targets(n.target)]
+        elif isinstance(n, (ast.With, ast.AsyncWith)):
+            targets = [(t, "store") for it in n.items if it.optional_vars is not None
+                       for t in _flatten_targets(it.optional_vars)]
+        elif isinstance(n, ast.NamedExpr):
+            targets = [(n.target, "store")]
         for t, kind in targets:
             if isinstance(t, (ast.Attribute, ast.Subscript)):
-                out.append((n.lineno, kind, t.value, getattr(t, "attr", "[]")))
-        if isinstance(n, ast.Call) and isinstance(n.func, ast.Attribute) and n.func.attr in MUTATORS:
-            out.append((n.lineno, "call:" + n.func.attr, n.func.value, n.func.attr))
+                out.append((n.lineno, kind, t.value, getattr(t, "attr", "[]"), n))
+            elif isinstance(t, ast.Name) and t.id in ctx.declared:
+                special.append((n.lineno, kind + ":global", t.id, t.id))
+        if isinstance(n, ast.Call):
+            f = n.func
+            if isinstance(f, ast.Attribute) and f.attr in MUTATORS:
+                if f.attr in ("__setattr__", "__delattr__") and isinstance(f.value, ast.Name) and f.value.id in ("object", "type") and n.args:
+                    what = n.args[1].value if len(n.args) > 1 and isinstance(n.args[1], ast.Constant) else "?"
+                    out.append((n.lineno, "call:" + f.attr, n.args[0], what, n))
+                else:
+                    out.append((n.lineno, "call:" + f.attr, f.value, f.attr, n))
+            elif isinstance(f, ast.Name) and f.id in SETATTR_FUNCS and n.args:
+                what = n.args[1].value if len(n.args) > 1 and isinstance(n.args[1], ast.Constant) else "?"
+                out.append((n.lineno, "call:" + f.id, n.args[0], what, n))
     res = []
-    for line, kind, recv, what in out:
-        c = _classify(fn, cls, recv, params, fresh)
+    for line, kind, recv, what, node in out:
+        c = _classify(ctx, recv, fresh, node)
+        dom = _dominating_binding(fn, node, recv.id) if isinstance(recv, ast.Name) else None
+        if kind.startswith("call:setattr") or kind.startswith("call:delattr") or kind.startswith("call:__setattr__"):
+            # setattr(self, ...) on a per-request object is a direct attribute store
+            if isinstance(recv, ast.Name) and recv.id == "self" and ctx.cls in PER_REQUEST_CLASSES:
+                c = "selfnew"
+            elif isinstance(recv, ast.Name) and recv.id in ("self", "cls"):
+                c = "shared"
         res.append({"module": mod, "function": (cls + "." if cls else "") + name, "line": line, "kind": kind,
                     "receiver": ast.unparse(recv), "what": what, "class": c,
-                    "on_copy": isinstance(recv, ast.Name) and recv.id in copies})
+                    "on_copy": dom is not None and _is_copy_call(dom)})
+    for line, kind, recv, what in special:
+        res.append({"module": mod, "function": (cls + "." if cls else "") + name, "line": line, "kind": kind,
+                    "receiver": recv, "what": what, "class": "shared", "on_copy": False})
     return res
+
+
+# ---------------------------------------------------------------------------------------------------------------
+# Config.copy
+
+
+def _is_self_attr(e, attr):
+    return isinstance(e, ast.Attribute) and e.attr == attr and isinstance(e.value, ast.Name) and e.value.id == "self"
+
+
+def _is_dup_of(e, attr):
+    """`e` builds a NEW dictionary with the content of `self.<attr>`."""
+    if isinstance(e, ast.Call):
+        f = e.func
+        if isinstance(f, ast.Attribute) and f.attr == "copy" and _is_self_attr(f.value, attr) and not e.args:
+            return True                                              # self.X.copy()
+        if isinstance(f, ast.Attribute) and f.attr in ("copy", "deepcopy") and e.args and _is_self_attr(e.args[0], attr):
+            return True                                              # copy.copy(self.X)
+        if isinstance(f, ast.Name) and f.id in ("dict", "LocalClasses", "OrderedDict") and len(e.args) == 1 and (
+                _is_self_attr(e.args[0], attr) or _is_items_of(e.args[0], attr)):
+            return True                                              # dict(self.X) / LocalClasses(self.X)
+        if isinstance(f, ast.Call) and isinstance(f.func, ast.Name) and f.func.id == "type" and len(f.args) == 1 and \
+                _is_self_attr(f.args[0], attr) and len(e.args) == 1 and _is_self_attr(e.args[0], attr):
+            return True                                              # type(self.X)(self.X)
+    if isinstance(e, ast.Dict) and len(e.keys) == 1 and e.keys[0] is None and _is_self_attr(e.values[0], attr):
+        return True                                                  # {**self.X}
+    if isinstance(e, ast.DictComp) and len(e.generators) == 1 and _is_items_of(e.generators[0].iter, attr):
+        return True                                                  # {k: v for k, v in self.X.items()}
+    return False
+
+
+def _is_items_of(e, attr):
+    return isinstance(e, ast.Call) and isinstance(e.func, ast.Attribute) and e.func.attr == "items" and \
+        _is_self_attr(e.func.value, attr)
+
+
+def _copy_duplicates(src):
+    """(classes duplicated, serialize_handlers duplicated) or None when Config.copy is not of a recognisable shape."""
+    cp = src.func("config", "Config.copy")
+    init = src.func("config", "Config.__init__")
+    if cp is None or init is None:
+        return None
+    init_params = [a.arg for a in init.args.args][1:]
+    # what __init__ does with no/None argument for the field: a new empty dictionary?
+    init_fresh = {}
+    for n in ast.walk(init):
+        if isinstance(n, ast.Assign) and len(n.targets) == 1 and isinstance(n.targets[0], ast.Attribute) and \
+                isinstance(n.targets[0].value, ast.Name) and n.targets[0].value.id == "self":
+            attr = n.targets[0].attr
+            v = n.value
+            if isinstance(v, ast.Call) and not v.args and not v.keywords:
+                init_fresh[attr] = ("new", None)                     # self.classes = LocalClasses()
+            elif isinstance(v, ast.BoolOp) and isinstance(v.op, ast.Or) and isinstance(v.values[0], ast.Name) and \
+                    isinstance(v.values[-1], (ast.Dict, ast.Call)):
+                init_fresh[attr] = ("param-or-new", v.values[0].id)  # self.X = X or {}
+            elif isinstance(v, ast.Name):
+                init_fresh[attr] = ("param", v.id)
+    new_names = set()
+    ctor_calls = []
+    for n in ast.walk(cp):
+        if isinstance(n, ast.Assign) and len(n.targets) == 1 and isinstance(n.targets[0], ast.Name) and \
+                isinstance(n.value, ast.Call) and isinstance(n.value.func, (ast.Name, ast.Attribute)):
+            fname = n.value.func.id if isinstance(n.value.func, ast.Name) else n.value.func.attr
+            if fname in ("Config", "type", "__class__") or fname == "Config":
+                new_names.add(n.targets[0].id)
+                ctor_calls.append(n.value)
+    if not new_names:
+        return None
+    res = {}
+    for attr in ("classes", "serialize_handlers"):
+        state = None      # None unknown, "fresh-empty", "dup", "alias"
+        # constructor argument
+        for call in ctor_calls:
+            arg = None
+            for kw in call.keywords:
+                if kw.arg == attr:
+                    arg = kw.value
+            if arg is None and attr in init_params:
+                i = init_params.index(attr)
+                if i < len(call.args):
+                    arg = call.args[i]
+            how = init_fresh.get(attr)
+            if arg is None or (isinstance(arg, ast.Constant) and arg.value is None):
+                if how and how[0] in ("new", "param-or-new"):
+                    state = "fresh-empty"
+            elif _is_self_attr(arg, attr):
+                # `X or {}` keeps the caller's dictionary when it is not empty
+                state = "alias"
+            elif _is_dup_of(arg, attr):
+                state = "dup"
+            if how and how[0] == "new":
+                state = "fresh-empty"      # __init__ ignores any argument for this field
+        # later statements on the new object
+        for n in ast.walk(cp):
+            if isinstance(n, ast.Assign):
+                for t in n.targets:
+                    if isinstance(t, ast.Attribute) and t.attr == attr and isinstance(t.value, ast.Name) and t.value.id in new_names:
+                        if _is_dup_of(n.value, attr):
+                            state = "dup"
+                        elif _is_self_attr(n.value, attr):
+                            state = "alias"
+                        else:
+                            state = None
+            if isinstance(n, ast.Call) and isinstance(n.func, ast.Attribute) and n.func.attr == "update" and \
+                    isinstance(n.func.value, ast.Attribute) and n.func.value.attr == attr and \
+                    isinstance(n.func.value.value, ast.Name) and n.func.value.value.id in new_names and \
+                    len(n.args) == 1 and (_is_self_attr(n.args[0], attr) or _is_items_of(n.args[0], attr)):
+                if state in ("fresh-empty", "dup"):
+                    state = "dup"                                      # new.X.update(self.X) on a new dictionary
+        if state is None:
+            return None
+        res[attr] = state == "dup"
+    return (res["classes"], res["serialize_handlers"])
+
+
+# ---------------------------------------------------------------------------------------------------------------
+# which configuration every reply-building call is handed
+
+
+REPLY_BUILDERS = {"Fault", "dump", "dumps"}
+
+
+def _leaf_values(c, name, seen=None):
+    """The expressions a local name can stand for, following `a = b` chains between locals."""
+    seen = seen or set()
+    if name in seen:
+        return []
+    seen.add(name)
+    out = []
+    for v in c.bindings.get(name, []):
+        if isinstance(v, ast.Name) and v.id in c.locals and v.id not in c.params:
+            out.extend(_leaf_values(c, v.id, seen))
+        else:
+            out.append(v)
+    return out
+
+
+def _config_sites(ctxs):
+    """Sorted, de-duplicated [(function, callee, source)], source in request/server/default/other, for every
+    `Fault(...)`, `jsonrpclib.dump(...)` in the dispatcher class and validate_request."""
+    out = set()
+    for k, c in ctxs.items():
+        if k[0] != "SimpleJSONRPCServer":
+            continue
+        for call in _calls(c.fn):
+            name = _call_name(call)
+            if name not in REPLY_BUILDERS:
+                continue
+            f = call.func
+            if isinstance(f, ast.Attribute) and not (isinstance(f.value, ast.Name) and f.value.id == "jsonrpclib"):
+                continue          # fault.dump(): renders with the configuration the Fault was built with
+            cfg = None
+            for kw in call.keywords:
+                if kw.arg == "config":
+                    cfg = kw.value
+            if cfg is None:
+                src = "default"
+            elif _is_self_attr(cfg, "json_config"):
+                src = "server"
+            elif isinstance(cfg, ast.Name) and cfg.id in c.params:
+                # a parameter: the per-request configuration for the dispatch helpers, the server's for validate_request
+                src = "server" if cfg.id == "json_config" else "request"
+            elif isinstance(cfg, ast.Name) and cfg.id in c.locals:
+                vals = _leaf_values(c, cfg.id)
+                # the per-request local of _marshaled_single_dispatch: bound to the copy and to the server's object
+                if any(isinstance(v, ast.Call) and isinstance(v.func, ast.Attribute) and v.func.attr == "copy" for v in vals):
+                    src = "request"
+                elif vals and all(_expr_shared(c, v) for v in vals):
+                    src = "server"
+                else:
+                    src = "other"
+            else:
+                src = "other"
+            out.add(((k[1] + "." if k[1] else "") + k[2], "Fault" if name == "Fault" else "dump", src))
+    return sorted(out)
 
 
 def facts(src):
@@ -163,46 +695,41 @@ def facts(src):
     if ROOT not in funcs:
         return [Fact("servePathSharedWrites", "List (String × Nat × String)", None, ["C13"], "serve path root not found"),
                 Fact("versionStoreOnCopy", "Bool", None, ["C13"], "serve path root not found"),
-                Fact("configCopyDuplicates", "Bool × Bool", None, ["C13"], "")]
-    reach = _reachable(funcs)
+                Fact("configCopyDuplicates", "Bool × Bool", None, ["C13"], ""),
+                Fact("replyConfigSites", "List (String × String × String)", None, ["C13"], "")]
+    roots = [ROOT] + [r for r in EXTRA_ROOTS if r in funcs]
+    reach = _reachable(funcs, roots)
+    ctxs = _shared_params(funcs, reach)
     table = []
     for k in sorted(reach, key=lambda k: (k[0], k[1] or "", k[2])):
         if k[2] in IGNORED_FUNCS:
             continue
-        table.extend(_writes(k, funcs[k]))
+        table.extend(_writes(ctxs[k]))
     shared = [w for w in table if w["class"] == "shared"]
-    cfg_stores = [w for w in table if w["kind"] in ("store", "augstore") and w["what"] in
-                  ("version", "use_jsonclass", "content_type", "user_agent", "serialize_method", "ignore_attribute",
-                   "classes", "serialize_handlers") and w["module"] == "SimpleJSONRPCServer"]
+    cfg_stores = [w for w in table if w["kind"] in ("store", "augstore", "call:setattr") and w["what"] in CONFIG_ATTRS
+                  and w["module"] == "SimpleJSONRPCServer"]
     on_copy = all(w["on_copy"] for w in cfg_stores) if cfg_stores else None
-    if not cfg_stores:
-        # no configuration store at all on the serve path: nothing to dominate; report how versions are adapted
-        on_copy = None
-    # Config.copy duplicates both dictionaries
-    dup = None
-    cp = src.func("config", "Config.copy")
-    if cp is not None:
-        d = {}
-        for n in ast.walk(cp):
-            if isinstance(n, ast.Assign) and len(n.targets) == 1 and isinstance(n.targets[0], ast.Attribute):
-                attr = n.targets[0].attr
-                if attr in ("classes", "serialize_handlers"):
-                    v = n.value
-                    d[attr] = (isinstance(v, ast.Call) and isinstance(v.func, ast.Attribute) and v.func.attr == "copy") or \
-                              (isinstance(v, ast.Call) and isinstance(v.func, ast.Name) and v.func.id in ("dict", "LocalClasses") and bool(v.args))
-        if "classes" in d and "serialize_handlers" in d:
-            dup = (d["classes"], d["serialize_handlers"])
+    dup = _copy_duplicates(src)
+    sites = _config_sites(ctxs)
     lean_shared = lean_list(["(%s, %d, %s)" % (lean_str(w["module"] + "." + w["function"]), w["line"], lean_str(w["kind"] + " " + w["receiver"]))
                              for w in shared])
+    shared_params = {"%s.%s%s" % (k[0], (k[1] + ".") if k[1] else "", k[2]): sorted(c.shared_params)
+                     for k, c in ctxs.items() if c.shared_params}
     return [
         Fact("servePathSharedWrites", "List (String × Nat × String)", lean_shared, ["C13"],
-             "stores to shared state made by functions reachable from _marshaled_dispatch (%d functions, %d stores scanned)"
-             % (len(reach), len(table)),
+             "stores to shared state made by functions reachable from _marshaled_dispatch, do_POST, handle_jsonrpc "
+             "(%d functions, %d stores scanned)" % (len(reach), len(table)),
              json_value={"shared": shared, "scanned_functions": sorted("%s.%s%s" % (k[0], (k[1] + ".") if k[1] else "", k[2]) for k in reach),
+                         "roots": ["%s.%s.%s" % r for r in roots], "shared_parameters": shared_params,
                          "stores": table}),
         Fact("versionStoreOnCopy", "Bool", None if on_copy is None else lean_bool(on_copy), ["C13"],
              "every store into a configuration attribute on the serve path is applied to a name bound to a .copy() result",
              json_value=on_copy),
         Fact("configCopyDuplicates", "Bool × Bool", None if dup is None else "(%s, %s)" % (lean_bool(dup[0]), lean_bool(dup[1])), ["C13"],
-             "Config.copy assigns copies of (classes, serialize_handlers)", json_value=dup),
+             "Config.copy gives the copy NEW dictionaries filled from the original's (classes, serialize_handlers)", json_value=dup),
+        Fact("replyConfigSites", "List (String × String × String)",
+             lean_list(["(%s, %s, %s)" % (lean_str(a), lean_str(b), lean_str(c)) for a, b, c in sites]), ["C13"],
+             "which configuration every Fault(...)/jsonrpclib.dump(...) call of the dispatcher is handed: the per-request one "
+             "(`request`), the server's (`server`), none (`default`) — sorted, de-duplicated (function, callee, source)",
+             json_value=sites),
     ]
